@@ -153,6 +153,12 @@ type Harness interface {
 	End(c *RunCtx, end string) (sig string, anomaly string)
 }
 
+// Expander is implemented by harnesses that enumerate a finite fault space
+// around one generated history (e.g. every crash point of it).
+type Expander interface {
+	Expand(plan *Plan, first *Result) []*Plan
+}
+
 var registry = map[string]Harness{}
 
 func Register(h Harness) { registry[h.Name()] = h }
@@ -241,7 +247,9 @@ func Execute(t *testing.T, h Harness, plan *Plan) *Result {
 			res.Faults = sim.Faults
 			res.Probes = sim.Probes
 			tr := sim.Trace()
-			if res.Sig != "" || res.Anomaly != "" {
+			if os.Getenv("VERIF_TRACE") != "" {
+				res.TraceTail = tr
+			} else if res.Sig != "" || res.Anomaly != "" {
 				if len(tr) > 80 {
 					tr = tr[len(tr)-80:]
 				}
